@@ -48,14 +48,14 @@ def run_c35(prop):
     if r.error:
         raise vlib.ToolError("RaftSM GEN: " + r.error)
     cases = extract_cases(r.stdout)
-    cases = cases[:: max(1, len(cases) // (2500 if quick else 40000))]
+    cases = cases[:: max(1, len(cases) // (2500 if quick else 12000))]
     v.add_tlc(r, "RaftSM GEN: %d cases" % len(cases))
     kinds = {c["k"] for cs in cases for c in cs["log"]}
     if len(kinds) < 16:
         raise vlib.ToolError("RaftSM GEN covered only %d of 16 command kinds" % len(kinds))
     cp, rp = os.path.join(w, "sm_cases.ndjson"), os.path.join(w, "sm_report.json")
     write_ndjson(cp, cases)
-    run_harness("vhraft", ["sm-replay", cp, rp], features=feat, timeout=3000, env_extra={"VERIF_ROCKS_STRIDE": "10" if quick else "1"})
+    run_harness("vhraft", ["sm-replay", cp, rp], features=feat, timeout=3000, env_extra={"VERIF_ROCKS_STRIDE": "10" if quick else "6"})
     v.add_report(load_report(rp))
     # --- GEN: storage contract, exhaustive histories
     mo = 5 if quick else 6
@@ -66,7 +66,7 @@ def run_c35(prop):
     v.add_tlc(r, "RaftLog: contract holds on the reference; %d histories" % len(lc))
     cp, rp = os.path.join(w, "log_cases.ndjson"), os.path.join(w, "log_report.json")
     write_ndjson(cp, lc)
-    run_harness("vhraft", ["log-replay", cp, rp, 4], features=feat, timeout=3000, env_extra={"VERIF_ROCKS_STRIDE": "10" if quick else "1"})
+    run_harness("vhraft", ["log-replay", cp, rp, 4], features=feat, timeout=3000, env_extra={"VERIF_ROCKS_STRIDE": "10" if quick else "6"})
     v.add_report(load_report(rp))
     # --- the library's own suite
     rp = os.path.join(w, "suite_report.json")
@@ -97,11 +97,11 @@ def run_c36(prop):
     v.notes.append("faithful model (recovery replays only the remaining log) violates Recovered at design level")
     L = 7 if quick else 8
     r = tlc("RocksRecovery", base % (L, "log") + "INVARIANT Case\nCHECK_DEADLOCK FALSE\n", "rr_gen", workers=1, timeout=3000,
-            simulate=(120 if quick else 6000), depth=L + 1, tlc_seed=vlib.seed())
+            simulate=(120 if quick else 600), depth=L + 1, tlc_seed=vlib.seed())
     if r.error:
         raise vlib.ToolError("RocksRecovery GEN: " + r.error)
     cases = extract_cases(r.stdout)
-    cases = cases[:: max(1, len(cases) // (250 if quick else 30000))]
+    cases = cases[:: max(1, len(cases) // (250 if quick else 4000))]
     v.add_tlc(r, "RocksRecovery GEN (random walks): %d histories" % len(cases))
     # transition coverage of the (disk, memory) state graph: one history per transition
     rc = tlc("RocksRecovery", 'CONSTANTS MaxIdx = 3\nMaxOps = 12\nRecoverFrom = "log"\nINIT Init\nNEXT CovNext\nVIEW CovView\nCHECK_DEADLOCK FALSE\n', "rr_cov", workers=1, timeout=3000)
@@ -111,6 +111,8 @@ def run_c36(prop):
     cov = [c for c in cov if c["hist"][-1]["op"] == "reopen"]     # only histories that end in a recovery check anything new
     if quick:
         cov = cov[vlib.seed() % 3:: max(1, len(cov) // 600)]
+    else:
+        cov = cov[:: max(1, len(cov) // 5000)]
     v.add_tlc(rc, "RocksRecovery transition coverage: %d histories ending in a reopen" % len(cov))
     cases = cov + cases
     ops = {h["op"] for c in cases for h in c["hist"]}
@@ -144,7 +146,7 @@ def run_c38(prop):
     v.notes.append("faithful model (what the handlers replicate today) violates InSync at design level")
     L = 40 if quick else 60
     r = tlc("CoordSync", base % ("TRUE", L) + "INVARIANT Case\nCHECK_DEADLOCK FALSE\n", "cs_gen", workers=1, timeout=3000,
-            simulate=(14 if quick else 150), depth=L + 1, tlc_seed=vlib.seed())
+            simulate=(14 if quick else 60), depth=L + 1, tlc_seed=vlib.seed())
     if r.error:
         raise vlib.ToolError("CoordSync GEN: " + r.error)
     allc = extract_cases(r.stdout)
@@ -185,7 +187,7 @@ def run_c37(prop):
         raise vlib.ToolError("ReplModel without the vote check should violate an invariant")
     v.notes.append("ReplModel sanity: without the up-to-date check in elections %s is violated" % r0.violated)
     rp, tp = os.path.join(w, "report.json"), os.path.join(w, "trace.ndjson")
-    run_harness("vhraft", ["cluster-record", rp, tp, 4 if quick else 40, 30 if quick else 60], features="persistent", timeout=6000)
+    run_harness("vhraft", ["cluster-record", rp, tp, 4 if quick else 24, 30 if quick else 60], features="persistent", timeout=6000)
     rep = load_report(rp)
     v.add_report(rep)
     ok = vlib.tv_blocks(v, prop, SPEC, "ReplLog", [], ["RAgree", "RMono", "RDurable"], tp, "cl", conform=None)
